@@ -192,6 +192,44 @@ def script_checks(rep, rng, desc, trees, tmp, n):
                 rep.violation("trajectory", "serial:trajectory-exception:" + type(e).__name__, dict(tag, exc=repr(e)[:200]))
 
 
+def trajectory_name_checks(rep, tmp):
+    """Several trajectories saved side by side, under names that share a stem or end in characters of the extension, with
+    and without '.json': each reloads with its own data, and the external data file is <name>_data.npy as documented."""
+    from strengths import RDNetwork, RDSystem, RDTrajectory, Species, UnitArray
+    d = os.path.join(tmp, "names")
+    os.makedirs(d, exist_ok=True)
+    system = RDSystem(network=RDNetwork(species=[Species("A")], reactions=[]))
+    names = ["result", "results", "run_n", "run_s", "run_", "jason", "a.b", "traj.json", "trajs.json", "x"]
+    saved = {}
+    for k, name in enumerate(names):
+        tr = RDTrajectory(data=UnitArray(np.array([float(k), 10.0 + k, 20.0 + k]), "molecule"), t_sample=UnitArray(np.array([0.0, 1.0, 2.0]), "s"),
+                          system=system)
+        try:
+            save_rdtrajectory(tr, os.path.join(d, name), separate_data=True)
+        except Exception as e:  # noqa
+            # these trajectories are built by hand, without a script (the constructor's default)
+            rep.violation("trajectory", "serial:trajectory-without-script-cannot-be-saved", {"name": name, "exc": repr(e)[:200]})
+            return
+        saved[name] = tr
+    for name, tr in saved.items():
+        rep.case(["trajectory-name", name])
+        base = name[:-5] if name.endswith(".json") else name
+        path = os.path.join(d, base + ".json")
+        try:
+            back = load_rdtrajectory(path)
+            ok = np.array_equal(back.data.convert("molecule").value, tr.data.value)
+        except Exception as e:  # noqa
+            rep.violation("trajectory", "serial:trajectory-name-exception", {"name": name, "exc": repr(e)[:200]})
+            continue
+        if back.script is not None:
+            rep.violation("trajectory", "serial:trajectory-without-script-reloads-with-one", {"name": name})
+        if not ok:
+            rep.violation("trajectory", "serial:trajectory-reloads-with-another-file's-data", {"name": name, "got": [float(v) for v in back.data.value],
+                                                                                                "saved": [float(v) for v in tr.data.value]})
+        elif not os.path.exists(os.path.join(d, base + "_data.npy")):
+            rep.violation("trajectory", "serial:trajectory-data-file-name", {"name": name, "files": sorted(os.listdir(d))[:30]})
+
+
 def multifile_checks(rep, rng, desc, trees, tmp, n):
     """scripts split over files: relative paths resolve against the including file's directory, absolute ones as given"""
     for k in range(n):
@@ -349,6 +387,8 @@ def run(tier, selftest=False, only=None):
     desc2 = serial.Describer(sc, systems, rng, explicit_p=0.2, aliases=None)
     multifile_checks(rep, rng, desc2, trees, tmp, 40 if tier == "quick" else 500)
     default_checks(rep)
+    with rep.guard("trajectory", None):
+        trajectory_name_checks(rep, tmp)
     shutil.rmtree(tmp, ignore_errors=True)
     rep.traces = rep.evaluations
     rep.sample({"declaration_tree": trees[12345]})
